@@ -425,7 +425,7 @@ Section Interp.
   Variable W : Type.
   Variable buckets : W -> str -> bool.           (* bucketname in datastore.buckets() *)
   (* the body of a built-in as an oracle: name, actual arguments, world -> outcome *)
-  Variable body : str -> list arg -> W -> res value * W.
+  Variable body : str -> list arg -> W -> (value + errclass) * W.
 
   Definition M (X : Type) := W -> res X * W.
   Definition ret {X} (x : X) : M X := fun w => (Ok x, w).
@@ -438,6 +438,10 @@ Section Interp.
              end.
   Definition lift {X} (r : res X) : M X := fun w => (r, w).
 
+  Definition call_body (name : str) (args : list arg) : M value :=
+    fun w => let '(r, w') := body name args w in
+             (match r with inl v => Ok v | inr c => Err c end, w').
+
   Definition run_body (b : builtin) (args : list arg) : M value :=
     match b_body b with
     | BodyNop => ret (VInt 1)
@@ -445,11 +449,11 @@ Section Interp.
     | BodyBucket =>
         match vals_of_args args with
         | VStr bucketname :: _ =>
-            fun w => if buckets w bucketname then body (b_name b) args w
+            fun w => if buckets w bucketname then call_body (b_name b) args w
                      else (Err FunctionError, w)
-        | _ => body (b_name b) args
+        | _ => call_body (b_name b) args
         end
-    | BodyAbstract => body (b_name b) args
+    | BodyAbstract => call_body (b_name b) args
     end.
 
   (* functions[name](datastore, namespace, *values):  q2_function's g drops the namespace
@@ -471,6 +475,27 @@ Section Interp.
                | r => r
                end).
 
+  (* the for loops of QFunction.interpret / QList.interpret (values in written order) and of
+     QDict.interpret (expanded_dict[key] = value.interpret(...)), over the element
+     interpreter [f] *)
+  Section Loops.
+    Variable f : qtoken -> namespace -> M (value * namespace).
+    Fixpoint interp_seq (l : list qtoken) (ns : namespace) : M (list value * namespace) :=
+      match l with
+      | [] => ret ([], ns)
+      | a :: l' =>
+          bindM (f a ns) (fun '(v, ns) =>
+          bindM (interp_seq l' ns) (fun '(vs, ns) => ret (v :: vs, ns)))
+      end.
+    Fixpoint interp_entries (l : list (str * qtoken)) (acc : list (str * value)) (ns : namespace)
+        : M (list (str * value) * namespace) :=
+      match l with
+      | [] => ret (acc, ns)
+      | (k, a) :: l' =>
+          bindM (f a ns) (fun '(v, ns) => interp_entries l' (dict_set acc k v) ns)
+      end.
+  End Loops.
+
   (* t.interpret(datastore, namespace): value, namespace after QVariable's write-back *)
   Fixpoint interp (t : qtoken) (ns : namespace) {struct t} : M (value * namespace) :=
     match t with
@@ -483,31 +508,13 @@ Section Interp.
         match find_builtin table name with
         | None => fail InterpretError
         | Some b =>
-            bindM ((fix go (l : list qtoken) (ns : namespace) : M (list value * namespace) :=
-                      match l with
-                      | [] => ret ([], ns)
-                      | a :: l' =>
-                          bindM (interp a ns) (fun '(v, ns) =>
-                          bindM (go l' ns) (fun '(vs, ns) => ret (v :: vs, ns)))
-                      end) args ns) (fun '(vals, ns) =>
+            bindM (interp_seq interp args ns) (fun '(vals, ns) =>
             bindM (call_builtin b vals) (fun r => ret (r, ns)))
         end
     | QDict d =>
-        bindM ((fix go (l : list (str * qtoken)) (acc : list (str * value)) (ns : namespace)
-                  : M (list (str * value) * namespace) :=
-                  match l with
-                  | [] => ret (acc, ns)
-                  | (k, a) :: l' =>
-                      bindM (interp a ns) (fun '(v, ns) => go l' (dict_set acc k v) ns)
-                  end) d [] ns) (fun '(d', ns) => ret (VDict d', ns))
+        bindM (interp_entries interp d [] ns) (fun '(d', ns) => ret (VDict d', ns))
     | QList l =>
-        bindM ((fix go (l : list qtoken) (ns : namespace) : M (list value * namespace) :=
-                  match l with
-                  | [] => ret ([], ns)
-                  | a :: l' =>
-                      bindM (interp a ns) (fun '(v, ns) =>
-                      bindM (go l' ns) (fun '(vs, ns) => ret (v :: vs, ns)))
-                  end) l ns) (fun '(vs, ns) => ret (VList vs, ns))
+        bindM (interp_seq interp l ns) (fun '(vs, ns) => ret (VList vs, ns))
     end.
 
   Definition var_name (t : qtoken) : res str :=
